@@ -10,7 +10,7 @@ def run(ctx):
                        "with and without crypto keys. Oracle: the TL1 bytes of the extra the handler saw == those the client set; BodyFormatTL2 and actor equal; "
                        "client-side response extra == handler's extra restricted to the advertised request bits (also for error responses); error code and "
                        "description equal (code 0 must not arrive as 0). distinct_nontrivial = distinct (request flags, format, error-ness).")
-    env = {"VERIF_N": 40000 if thorough else 2400}
+    env = {"VERIF_N": 400000 if thorough else 2400}
     r, ev = inpkg.run_inpkg(ctx, "rpcmon", "pkg/rpc/vmon", "^TestVerifC40$", env=env, race=True, timeout=3400)
     sm = inpkg.absorb(ctx, r, ev, "rpc extras")
     t = inpkg.merge_counters(ctx, sm)
